@@ -19,7 +19,7 @@ _prog = None
 def fixture_prog():
     global _prog
     if _prog is None:
-        facts = extract("dev", repo=os.path.join(VERIF, "fixtures"), crate="nsfix", floor=14)
+        facts = extract("dev", repo=os.path.join(VERIF, "fixtures"), crate="nsfix", floor=16)
         _prog = Program(facts)
     return _prog
 
@@ -124,7 +124,24 @@ def fx_r22(prog):
     return any((not o["ok"]) and "left-strictly-smaller" in o["key"] for o in c.obs)
 
 
-FIXTURES = {"R21": fx_r21, "R22": fx_r22, "R1": fx_r1, "R8": fx_r8, "R9": fx_r9, "R14": fx_r14, "R3": fx_r3, "R4": fx_r4, "R5": fx_r5, "R6": fx_r6,
+def fx_r24(prog):
+    from .selection import SelectionProof
+    b = prog.find("fix_r24_rebase_wrong")
+    part = prog.find("fix_r22_not_strict")
+    res = SelectionProof(prog, b, part.key, {b.key}).prove(2)
+    return len(res) >= 3 and any(not (r[1] and r[2] and r[3]) for r in res) and any(r[1] and r[2] and r[3] for r in res)
+
+
+def fx_r25(prog):
+    from .bulkselect import BulkProof
+    b = prog.find("fix_r25_found_not_written")
+    part = prog.find("fix_r22_not_strict")
+    res = BulkProof(prog, b, part.key).prove()
+    bad = [r for r in res if not r["ok"]]
+    return len(res) >= 5 and len(bad) == 1 and bad[0]["case"] == "eq" and any(r["ok"] for r in res)
+
+
+FIXTURES = {"R24": fx_r24, "R25": fx_r25, "R21": fx_r21, "R22": fx_r22, "R1": fx_r1, "R8": fx_r8, "R9": fx_r9, "R14": fx_r14, "R3": fx_r3, "R4": fx_r4, "R5": fx_r5, "R6": fx_r6,
             "R18": fx_r18, "R19": fx_r19, "R10": fx_r10}
 
 
